@@ -95,17 +95,51 @@ func ruleHexString(c *core.Ctx, rule, readerPkg string) {
 		}
 		o.At(rd.Site(rd.Decl, "hex reader"))
 		env := byteEnvFor(c.Prog, rd, obj)
-		// digit = reaches an assignment whose RHS is arithmetic on the byte (b - K)
+		// digit = the byte reaches an assignment that hands a value computed
+		// from it (directly, or through a local such as d := hexDigit(b) or
+		// d = b - '0') to something other than such a local
+		family := map[types.Object]bool{obj: true}
+		ast.Inspect(g.Body, func(n ast.Node) bool {
+			as, ok := n.(*ast.AssignStmt)
+			if !ok {
+				return true
+			}
+			for i, l := range as.Lhs {
+				id, ok := ast.Unparen(l).(*ast.Ident)
+				if !ok || len(as.Lhs) != len(as.Rhs) {
+					continue
+				}
+				if core.Mentions(rd.Info(), as.Rhs[i], obj) {
+					if lo := rd.Info().ObjectOf(id); lo != nil {
+						family[lo] = true
+					}
+				}
+			}
+			return true
+		})
+		mentionsFamily := func(e ast.Expr) bool {
+			for m := range family {
+				if core.Mentions(rd.Info(), e, m) {
+					return true
+				}
+			}
+			return false
+		}
 		digits := env.ReachSet(g, starts, func(v *core.V) bool {
 			as, ok := v.AST.(*ast.AssignStmt)
-			if !ok || len(as.Rhs) != 1 {
+			if !ok || len(as.Lhs) != len(as.Rhs) {
 				return false
 			}
-			be, ok := ast.Unparen(as.Rhs[0]).(*ast.BinaryExpr)
-			if !ok {
-				return false
+			for i, r := range as.Rhs {
+				if !mentionsFamily(r) {
+					continue
+				}
+				if id, ok := ast.Unparen(as.Lhs[i]).(*ast.Ident); ok && family[rd.Info().ObjectOf(id)] {
+					continue
+				}
+				return true
 			}
-			return core.Mentions(rd.Info(), be, obj) && (be.Op == token.SUB || be.Op == token.ADD)
+			return false
 		}, stop)
 		want := core.BytesOf("0123456789abcdefABCDEF")
 		o.Count(256)
@@ -260,6 +294,26 @@ func ruleSeparators(c *core.Ctx, rule string) {
 	for v, ws := range writes {
 		if ws.IsSep {
 			sepVs = append(sepVs, v)
+		}
+	}
+	// calls of helpers that write the separator themselves when handed needSep
+	for _, v := range g.Vs {
+		if v.AST == nil || needSep == nil {
+			continue
+		}
+		for _, cs := range core.CallsIn(info, v.AST, false) {
+			if cs.Fn == nil {
+				continue
+			}
+			callee := c.Prog.FuncOf(cs.Fn)
+			if callee == nil || callee == fn {
+				continue
+			}
+			for i, a := range cs.Call.Args {
+				if id, ok := ast.Unparen(a).(*ast.Ident); ok && info.ObjectOf(id) == needSep && sepFirstFunc(c, callee, i, reg, 0) {
+					sepVs = append(sepVs, v)
+				}
+			}
 		}
 	}
 
@@ -906,4 +960,96 @@ func ruleRealParse(c *core.Ctx, rule string, targets ...[2]string) {
 			o.Require(n >= 1, "%s produces no Real", fn.Key)
 		})
 	}
+}
+
+// sepFirstFunc reports whether fn, when its idx-th parameter (a bool) is
+// true, writes a separator before anything else on every path: starting at
+// the entry and following only edges on which the parameter is not known to
+// be false, no write and no return is reachable without passing a separator
+// write (or a call of another such function that is handed the parameter).
+func sepFirstFunc(c *core.Ctx, fn *core.Func, idx int, reg core.ByteSet, depth int) bool {
+	if depth > 3 || fn.Decl.Body == nil || fn.Decl.Type.Params == nil {
+		return false
+	}
+	info := fn.Info()
+	var param types.Object
+	i := 0
+	for _, f := range fn.Decl.Type.Params.List {
+		for _, n := range f.Names {
+			if i == idx {
+				param = info.ObjectOf(n)
+			}
+			i++
+		}
+	}
+	if param == nil {
+		return false
+	}
+	if b, ok := param.Type().Underlying().(*types.Basic); !ok || b.Kind() != types.Bool {
+		return false
+	}
+	// the parameter must not be reassigned
+	reassigned := false
+	ast.Inspect(fn.Decl.Body, func(n ast.Node) bool {
+		if as, ok := n.(*ast.AssignStmt); ok {
+			for _, l := range as.Lhs {
+				if id, ok := ast.Unparen(l).(*ast.Ident); ok && info.ObjectOf(id) == param {
+					reassigned = true
+				}
+			}
+		}
+		return true
+	})
+	if reassigned {
+		return false
+	}
+	g := fn.Graph()
+	pFalse := g.GuardEdges(func(a core.Atom) bool {
+		id, ok := ast.Unparen(a.Expr).(*ast.Ident)
+		return ok && info.ObjectOf(id) == param && a.Neg && a.Tag == nil
+	})
+	var seps []*core.V
+	var bad []*core.V
+	for _, v := range g.Vs {
+		if v.AST == nil {
+			continue
+		}
+		isSep := false
+		if ws := classifyWrite(fn, v, reg); ws != nil {
+			if ws.IsSep {
+				isSep = true
+			} else {
+				bad = append(bad, v)
+			}
+		}
+		for _, cs := range core.CallsIn(info, v.AST, false) {
+			if cs.Fn == nil {
+				continue
+			}
+			callee := c.Prog.FuncOf(cs.Fn)
+			if callee == nil || callee == fn {
+				continue
+			}
+			for i, a := range cs.Call.Args {
+				if id, ok := ast.Unparen(a).(*ast.Ident); ok && info.ObjectOf(id) == param && sepFirstFunc(c, callee, i, reg, depth+1) {
+					isSep = true
+				}
+			}
+		}
+		if isSep {
+			seps = append(seps, v)
+		} else if _, ok := v.AST.(*ast.ReturnStmt); ok {
+			bad = append(bad, v)
+		}
+	}
+	if len(seps) == 0 {
+		return false
+	}
+	reach := g.ReachFrom(g.Entry, true, core.AvoidVs(seps...).WithEdges(pFalse...))
+	for _, b := range bad {
+		if reach[b] {
+			return false
+		}
+	}
+	return !reach[g.Exit]
 }
